@@ -182,6 +182,7 @@ def run(ctx):
         t = G.gen_type(rng, rng.randint(0, ctx.pick(3, 4)), 'packable')
         v = G.gen_value(rng, t)
         packed = judge(ctx, rng, t, v)
+        ctx.remember(judge, ctx, rng, t, v)
         if not isinstance(packed, bytes):
             continue
         if len(ctx.samples) < 3 and T.depth(t) >= 2:
@@ -237,6 +238,7 @@ def run(ctx):
                 packed = judge(ctx, rng, t, v)
                 if isinstance(packed, bytes) and j % 3 == 0:
                     instr_agreement(ctx, t, v, packed)
+    ctx.run_again()
     ctx.require('lambdas_over_unpackable_types', 10)
     ctx.require('pack_calls', 100)
     ctx.require('unpack_calls', 50)
